@@ -30,6 +30,7 @@ struct GramCfg {
   bool verbose = false;
   std::set<std::string> known_enabled;
   double deadline = 0;
+  long maxin = 60000;            // per grammar: the length bound is lowered until sum T^len <= maxin (large terminal sets of curated grammars)
 };
 
 static std::string flags_str(const Flags &f) {
@@ -126,12 +127,73 @@ struct GramEngine {
   Family *fam = nullptr;
   std::vector<Gram> curated;
   std::vector<int> codes{97, 98, 99, 100};
+  int chain_k = 0;   // family ch<k>: generated on demand, see chain_gram()
+  bool chain_slim = false;   // ch4s: S mentions N1..N4 in this order only
 
-  size_t n_skels() const { return fam ? fam->skels.size() : curated.size(); }
+  // Family ch<k> ("chains"): the analysis of a grammar (nullability, FIRST, FOLLOW, accessibility, derivability)
+  // is a set of fixpoint iterations whose number of passes depends on the order in which nonterminals are first
+  // mentioned and rules are declared.  Nonterminals N1..Nk each have an own terminal rule (Ni : ci), a unit rule
+  // (Ni : Nj) or both, in either order; the start symbol has rules S : z Ni ti for an ordered non-empty subset of
+  // the Ni; the rule groups of N1..Nk follow in every order.  A terminal reaches FOLLOW(Ni) only through chains
+  // of unit rules, in every direction relative to the processing order.  Index = mixed radix number.
+  // k = 4: the own/unit order is one choice for all nonterminals (2 instead of 2^4); inputs of the chain
+  // families are the k*k strings z c_j t_i only (run_one_grammar).
+  static long chain_ipow(long b, int e) { long r = 1; while (e-- > 0) r *= b; return r; }
+  static std::vector<std::vector<int>> chain_ordered_subsets(int k) {
+    std::vector<std::vector<int>> out;
+    for (int mask = 1; mask < (1 << k); mask++) {
+      std::vector<int> v; for (int i = 0; i < k; i++) if (mask >> i & 1) v.push_back(i);
+      do out.push_back(v); while (std::next_permutation(v.begin(), v.end()));
+    }
+    return out;
+  }
+  long chain_count() const {
+    int k = chain_k;
+    long shapes = chain_ipow(2 * k - 1, k), orders = k >= 4 ? 2 : chain_ipow(2, k), perms = 1;
+    for (int i = 2; i <= k; i++) perms *= i;
+    return shapes * orders * (chain_slim ? 1 : (long) chain_ordered_subsets(k).size()) * perms;
+  }
+  Gram chain_gram(long gi) const {
+    int k = chain_k;
+    static thread_local std::vector<std::vector<int>> subs; static thread_local int subs_k = 0;
+    if (subs_k != k) { subs = chain_ordered_subsets(k); subs_k = k; }
+    long perms = 1; for (int i = 2; i <= k; i++) perms *= i;
+    long pi = gi % perms; gi /= perms;
+    long si = 0;
+    if (chain_slim) { for (si = 0; si < (long) subs.size(); si++) { bool id = (int) subs[si].size() == k; for (int i = 0; id && i < k; i++) id = subs[si][i] == i; if (id) break; } }
+    else { si = gi % (long) subs.size(); gi /= (long) subs.size(); }
+    long norders = k >= 4 ? 2 : chain_ipow(2, k);
+    long oi = gi % norders; gi /= norders;
+    if (k >= 4 && oi) oi = (1 << k) - 1;
+    Gram g;
+    for (int i = 0; i < k; i++) g.terms.push_back({std::string(1, (char) ('a' + i)), 'a' + i});       // own terminals c_i
+    for (int i = 0; i < k; i++) g.terms.push_back({std::string(1, (char) ('p' + i)), 'p' + i});       // follow terminals t_i
+    g.nts.push_back("S"); for (int i = 0; i < k; i++) g.nts.push_back(std::string("N") + (char) ('1' + i));
+    auto mk = [&](int lhs, std::vector<int> rhs) { Rule r; r.lhs = lhs; r.rhs = rhs; r.has_transl = false; g.rules.push_back(r); };
+    g.terms.push_back({"z", 'z'});   // common first terminal of the start rules: FIRST sets converge in one pass
+    for (int i : subs[si]) mk(0, {2 * k, g.NT(1 + i), k + i});
+    std::vector<int> perm(k); for (int i = 0; i < k; i++) perm[i] = i;
+    for (long q = 0; q < pi; q++) std::next_permutation(perm.begin(), perm.end());
+    std::vector<int> shape(k); for (int i = 0; i < k; i++) { shape[i] = (int) (gi % (2 * k - 1)); gi /= (2 * k - 1); }
+    for (int i : perm) {
+      // shape: 0 own only; 1..k-1 unit only (to the (shape)-th other nonterminal); k..2k-2 both
+      int sh = shape[i];
+      bool own = sh == 0 || sh >= k;
+      int u = sh == 0 ? -1 : (sh >= k ? sh - k : sh - 1);   // index among the others
+      int target = u < 0 ? -1 : (u >= i ? u + 1 : u);
+      bool unit_first = (oi >> i) & 1;
+      if (own && target >= 0 && unit_first) { mk(1 + i, {g.NT(1 + target)}); mk(1 + i, {i}); }
+      else { if (own) mk(1 + i, {i}); if (target >= 0) mk(1 + i, {g.NT(1 + target)}); }
+    }
+    return g;
+  }
+
+  size_t n_skels() const { return fam ? fam->skels.size() : chain_k ? (size_t) chain_count() : curated.size(); }
+  int cur_T(long gi) const { return chain_k ? 2 * chain_k + 1 : curated[gi].T(); }
 
   Gram build(long gi, int ov, const std::vector<int> &tm, int cm) const {
     Gram g;
-    if (!fam) { g = curated[gi]; return g; }
+    if (!fam) { g = chain_k ? chain_gram(gi) : curated[gi]; return g; }
     Skel s = fam->skels[gi];
     if (ov >= 100) {  // ov = 100 + k: the k-th permutation of the rule list (nonterminals are created in order of first
                       // mention, rules of a nonterminal are processed in reverse declaration order: both depend on it);
@@ -186,6 +248,29 @@ struct GramEngine {
       rc[strict] = define_by_callbacks(y, g, strict);
       vy_free(y);
     }
+    if (cfg.props & (1 << 10)) {
+      // C10 on generated grammars: the verdict of the grammar analysis (productivity, accessibility, loops are
+      // fixpoints whose pass count depends on declaration order) against the reference facts
+      GFacts wf(g);
+      for (int strict = 0; strict < 2; strict++) {
+        std::set<int> exp;
+        if (wf.any_loop()) exp.insert(YAEP_LOOP_NONTERM);
+        std::vector<char> mentioned(g.nts.size(), 0);   // yaep knows only the nonterminals that occur in a rule
+        for (auto &r : g.rules) { mentioned[r.lhs] = 1; for (int x : r.rhs) if (!g.is_term(x)) mentioned[g.nt_index(x)] = 1; }
+        for (size_t i = 0; i < g.nts.size(); i++) {
+          if (!mentioned[i]) continue;
+          if (!wf.productive[i] && (strict || (int) i == g.start())) exp.insert(YAEP_NONTERM_DERIVATION);
+          if (!wf.reachable[i] && strict) exp.insert(YAEP_UNACCESSIBLE_NONTERM);
+        }
+        rep.add("c10_definitions");
+        if (!exp.empty()) rep.add("c10_expected_rejections");
+        bool ok = exp.empty() ? rc[strict] == 0 : exp.count(rc[strict]) > 0;
+        if (!ok) {
+          std::string e; for (int x : exp) e += (e.empty() ? "" : ",") + std::to_string(x);
+          rep.viol(viol_json("C10", "definition-verdict", cid.str() + " strict=" + std::to_string(strict), g, {}, "", "strict=" + std::to_string(strict) + ": yaep_read_grammar returned " + std::to_string(rc[strict]) + ", the reference expects " + (exp.empty() ? std::string("0") : "one of {" + e + "}")));
+        }
+      }
+    }
     if (rc[0] != 0) { rep.add("grammars_rejected"); return; }
     rep.add("grammars_accepted");
     if (rc[1] == 0) rep.add("grammars_accepted_strict");
@@ -200,16 +285,27 @@ struct GramEngine {
     // all inputs of length <= nmax over the declared terminals
     int T = g.T();
     std::vector<int> w;
-    for (int len = 0; len <= cfg.nmax; len++) {
+    if (chain_k) {
+      if (cfg.nmax >= 3) for (int j = 0; j < chain_k; j++) for (int i = 0; i < chain_k; i++) {
+        w = {2 * chain_k, j, chain_k + i};
+        if (cfg.only_in.empty() || cfg.only_in == ints_comma(w)) run_input(g, cid, strict_ok, y, w, rep);
+      }
+    } else {
+    int nmax_g = cfg.nmax;
+    if (T > 1) { for (;;) { double sum = 0, p = 1; for (int l = 0; l <= nmax_g; l++) { sum += p; p *= T; } if (sum <= (double) cfg.maxin || nmax_g <= 1) break; nmax_g--; } }
+    if (nmax_g < cfg.nmax) rep.add("grammars_length_capped_to_" + std::to_string(nmax_g));
+    for (int len = 0; len <= nmax_g; len++) {
       if (len > 0 && T == 0) break;
       w.assign(len, 0);
       for (;;) {
+        if (cfg.deadline > 0 && now_s() > cfg.deadline) { rep.add("deadline_hit_inside_grammar"); break; }
         bool sel = cfg.only_in.empty() || cfg.only_in == ints_comma(w);
         if (sel) run_input(g, cid, strict_ok, y, w, rep);
         int k = len - 1;
         while (k >= 0 && ++w[k] == T) { w[k] = 0; k--; }
         if (k < 0) break;
       }
+    }
     }
     if (y) vy_free(y);
   }
@@ -282,15 +378,22 @@ struct GramEngine {
         const std::vector<TV> *T = rootv ? &rootv->trs : nullptr;
         bool refcap = rootv && rootv->capped;
         // ---- C02
-        if ((cfg.props & P02) && clean_sentence && f.one == 1 && f.cost == 0 && !refcap) {
+        if ((cfg.props & P02) && clean_sentence && f.one == 1 && !refcap) {
+          // with the cost flag the cost fields are C04's business: the tree is compared without them
           rep.add("c02_cases");
+          if (f.cost) rep.add("c02_cases_cost_flag");
           if (o.root == NULL) V("C02", "null-root", "sentence, one parse: NULL root");
           else {
             for (auto &s : d.shape) V("C02", "shape", s);
             if (d.n_alt) V("C02", "alt-in-single-tree", "one parse requested, tree contains " + std::to_string(d.n_alt) + " ALT nodes");
             if (d.shape.empty() && !d.n_alt) {
               if (d.trees.size() != 1) V("C02", "not-one-tree", "graph denotes " + std::to_string(d.trees.size()) + " trees");
-              else if (!std::binary_search(T->begin(), T->end(), TV{*d.trees.begin(), "", 0})) V("C02", "spurious-tree", "returned tree " + *d.trees.begin() + " is not the translation of any derivation");
+              else if (!f.cost && !std::binary_search(T->begin(), T->end(), TV{*d.trees.begin(), "", 0})) V("C02", "spurious-tree", "returned tree " + *d.trees.begin() + " is not the translation of any derivation");
+              else if (f.cost) {
+                bool found = false; std::string mine = strip_costs(*d.trees.begin());
+                for (auto &t : *T) if (strip_costs(t.own) == mine) { found = true; break; }
+                if (!found) V("C02", "spurious-tree", "returned tree " + *d.trees.begin() + " (cost flag set, compared without cost fields) is not the translation of any derivation");
+              }
             }
           }
         }
@@ -568,9 +671,13 @@ struct GramEngine {
       if (cfg.deadline > 0 && now_s() > cfg.deadline) { deadline_hit = true; break; }
       size_t e = std::min(mine.size(), b + cfg.batch);
       ChildRes cr = run_child([&](Report &r) { for (size_t k = b; k < e; k++) run_grammar(mine[k], r); }, total, cfg.timeout * cfg.batch);
-      if (!cr.ok) isolate(mine, b, e, total);
+      if (!cr.ok) {
+        if (cfg.deadline > 0 && now_s() > cfg.deadline) { deadline_hit = true; break; }   // do not start an isolation after the deadline
+        isolate(mine, b, e, total);
+      }
       done = e;
     }
+    if (total.counters.count("deadline_hit_inside_grammar")) deadline_hit = true;
     total.add("skeletons_total_in_family", 0);
     char extra[256];
     snprintf(extra, sizeof extra, ",\n \"family_size\": %zu, \"shard_done\": %zu, \"shard_size\": %zu, \"deadline_hit\": %s", N, done, mine.size(), deadline_hit ? "true" : "false");
@@ -597,13 +704,14 @@ struct GramEngine {
   void isolate(const std::vector<long> &mine, size_t b, size_t e, Report &total) {
     for (size_t k = b; k < e; k++) {
       long gi = mine[k];
+      if (cfg.deadline > 0 && now_s() > cfg.deadline) { total.add("deadline_hit_inside_grammar"); return; }
       GramCfg c0 = cfg; c0.only_gi = gi;
       if (try_run(c0, gi, total)) continue;
       int reported = 0;
       Skel sk; if (fam) sk = fam->skels[gi];
       std::vector<std::vector<int>> mvs;
       if (fam) mvs = menu_vectors(sk, cfg.tm_scheme); else mvs.push_back({});
-      int T = fam ? fam->sp.T : curated[gi].T();
+      int T = fam ? fam->sp.T : cur_T(gi);
       for (int ov : cfg.ovs) for (auto &tm : mvs) for (int cm : cfg.cms) {
         if (!fam && (ov || cm)) continue;
         GramCfg c1 = c0; c1.only_ov = ov; c1.only_tm = fam ? ints_dot(tm) : ""; c1.only_cm = cm;
@@ -848,6 +956,7 @@ int eng_gram_main(int argc, char **argv) {
   c.timeout = (int) a.geti("timeout", 20);
   c.verbose = a.has("verbose");
   if (a.has("deadline")) c.deadline = now_s() + a.geti("deadline", 0);
+  c.maxin = a.geti("maxin", 60000);
   for (auto &s : split(a.get("known", ""), ',')) c.known_enabled.insert(s);
   // flag vectors: product of the listed values
   auto ints = [&](const std::string &k, const std::string &d) { std::vector<int> v; for (auto &s : split(a.get(k, d), ',')) v.push_back(atoi(s.c_str())); return v; };
@@ -866,6 +975,7 @@ int eng_gram_main(int argc, char **argv) {
     return 0;
   }
   if (c.family == "cur") E.curated = curated_grammars();
+  else if (c.family == "ch3" || c.family == "ch4" || c.family == "ch4s") { E.chain_k = c.family[2] - '0'; E.chain_slim = c.family == "ch4s"; }
   else E.fam = new Family(family_spec(c.family));
   if (a.has("count")) { printf("%zu\n", E.n_skels()); return 0; }
   std::string shard = a.get("shard", "0/1");
